@@ -79,6 +79,27 @@ def order_monitor(c, want_dense):
                          "err_h_over_2": worst["dense_err_h2"] if want_dense else worst["err_h2"],
                          "observed_order": worst["q_obs"] if want_dense else worst["p_obs"], "advertised": target,
                          "rerun": "harness/target/release/ivp-verif-harness order-probe"}, True)
+    # three equal steps from exact data: a later step of a run has the advertised order too (C02)
+    if not want_dense:
+        r3 = [r for r in jlines(out) if r.get("kind") == "order3"]
+        mon["cases"] += len(r3)
+        mon["distinct"] += len({(r["method"], r["x0"], r["h"]) for r in r3})
+        by3 = {}
+        for r in r3:
+            if not r.get("skipped") and isinstance(r.get("p_obs"), (int, float)): by3.setdefault(r["method"], []).append(r)
+        for m, rs in by3.items():
+            best = max(r["p_obs"] for r in rs)
+            mon["results"].append({"method": m, "advertised": rs[0]["p"], "three_steps_observed_max": best, "three_steps_observed_all": [round(r["p_obs"], 2) for r in rs]})
+            # at least half of the probes must show the advertised order (single probes are noisy for the high-order methods)
+            if 2 * sum(1 for r in rs if r["p_obs"] >= rs[0]["p"] - 0.6) < len(rs):
+                worst = min(rs, key=lambda r: r["p_obs"])
+                c.violation("implementation-vs-oracle",
+                            "%s: observed order %.2f over three equal steps < advertised %s (a step that is not the first of a run loses the order)" % (m, best, rs[0]["p"]),
+                            {"finding_key": "%s-later-step-order" % m.lower(), "method": m,
+                             "problem": "manufactured system of harness/src/order.rs (closed-form solution), three equal steps from exact data",
+                             "x0": worst["x0"], "h": worst["h"], "err_h": worst["err_h"], "err_h_over_2": worst["err_h2"],
+                             "observed_order": worst["p_obs"], "advertised": rs[0]["p"],
+                             "rerun": "harness/target/release/ivp-verif-harness order-probe"}, True)
     # polynomial exactness (crisp): step exact for k ≤ p (C02), interpolant exact for k ≤ q (C07)
     prow = [r for r in jlines(out) if r.get("kind") == "poly" and not r.get("skipped")]
     mon["poly_cases"] = len(prow)
